@@ -272,6 +272,8 @@ def kernel_part(chk: Check, drv: Driver):
             meta.append(("peep", text, fs, sx(export(m1)), None))
             reqs.append("CERT nofloatid " + sx(export(m0)))
             meta.append(("cert", text, fs, None, None))
+            reqs.append("CERT noretype " + sx(export(m0)))
+            meta.append(("cert_typed", text, fs, None, None))
             # run evaluate before/after on two random inputs
             sizes = problems.index_sizes(a, rng, choices=(0, 1, 2, 3))
             part = a.index_participants()
@@ -316,6 +318,17 @@ def kernel_part(chk: Check, drv: Driver):
                     chk.count("kernel_fn_certified_stable" if x == "true" else "kernel_fn_not_certified")
             else:
                 chk.unproved_obligation("correspondence:ir-reader", "CERT request failed", {"assignment": text, "formats": fs})
+        elif kind == "cert_typed":
+            # hypothesis of `peephole_func_sound_typed` (Props/C07Typed.lean): on the typed stable fragment the optimised
+            # kernel yields EXACTLY the same state and return value (no overflow alternative). Real kernels whose float
+            # identities sit on float-typed operands and whose `0 * e` has an int-typed `e` are in it.
+            r = replies[ri]
+            ri += 1
+            if isinstance(r, list) and all(x in ("true", "false") for x in r):
+                for x in r:
+                    chk.count("kernel_fn_in_typed_stable_fragment" if x == "true" else "kernel_fn_outside_typed_stable_fragment")
+            else:
+                chk.unproved_obligation("correspondence:ir-reader", "CERT noretype failed", {"assignment": text, "formats": fs})
         else:
             r0, r1 = replies[ri], replies[ri + 1]
             ri += 2
